@@ -217,6 +217,19 @@ def _incomplete(F, fn, base):
                     keys |= new
                     changed = True
     missing = [p for p in params if p not in keys]
+    # a key computed arithmetically from several inputs (mode * 14 + n) is not provably injective: two inputs may share an entry
+    def key_exprs():
+        for n in ast.walk(fn):
+            if isinstance(n, ast.Subscript) and F.canon(n.value) == base:
+                yield n.slice
+            if isinstance(n, ast.Call) and isinstance(n.func, ast.Attribute) and F.canon(n.func.value) == base and n.args:
+                yield n.args[0]
+    local_defs = {t.id: n.value for n in ast.walk(fn) if isinstance(n, ast.Assign) for t in n.targets if isinstance(t, ast.Name)}
+    for k in key_exprs():
+        k = local_defs.get(k.id, k) if isinstance(k, ast.Name) else k
+        if isinstance(k, ast.BinOp) and len({x.id for x in ast.walk(k) if isinstance(x, ast.Name)}) >= 2 and not missing:
+            return ('the lookup key `%s` folds several inputs into one number, so distinct inputs can share an entry unless the '
+                    'packing is injective' % ast.unparse(k)[:60])
     state = set()
     for n in ast.walk(fn):
         if isinstance(n, ast.Attribute):
